@@ -166,6 +166,8 @@ type verifC15Exec struct {
 	killMode string // "n" never succeeds, "a" always, "k" succeeds at the killAt-th attempt
 	killAt   int
 	kills    int
+	delay    time.Duration           // op tp: how long `crunch-run --list` takes
+	nlist    int32                   // op tp: `crunch-run --list` calls seen
 	gated    bool                    // `crunch-run --detach` blocks until the case releases it (op o1)
 	arrived  map[int][]chan struct{} // uuid -> gates of the start commands that have arrived, oldest first
 }
@@ -212,6 +214,10 @@ func (e *verifC15Exec) Execute(env map[string]string, cmd string, stdin io.Reade
 		}
 		return nil, []byte("not yet\n"), errors.New("boot probe failed")
 	case cmd == "crunch-run --list":
+		atomic.AddInt32(&e.nlist, 1)
+		if e.delay > 0 {
+			time.Sleep(e.delay)
+		}
 		if e.listOk {
 			return []byte(e.listOut), nil, nil
 		}
@@ -512,6 +518,113 @@ func verifC15Case(line string) (out string) {
 		sl := !w.wkr.staleRunLockSince.IsZero()
 		wp.mtx.Unlock()
 		return fmt.Sprintf("%s d=%d sl=%s", res, w.destroyCount(want), verifC15B(sl))
+	case f[0] == "pl" && len(f) == 9:
+		// a whole ProbeAndUpdate whose `crunch-run --list` prints the case's lines
+		c, err := verifC15ParseCfg(f[1], f[2], f[3], f[4], f[5])
+		boot, err2 := verifC15Bool(f[6])
+		if err != nil || err2 != nil || !strings.Contains("nyo", f[7]) || len(f[7]) != 1 {
+			return "bad-op"
+		}
+		var sb strings.Builder
+		if f[8] != "-" {
+			for _, tok := range strings.Split(f[8], "/") {
+				if tok == "b" {
+					sb.WriteString("broken\n")
+					continue
+				}
+				if tok == "e" {
+					sb.WriteString("\n")
+					continue
+				}
+				if len(tok) < 2 || !strings.Contains("usx", tok[:1]) {
+					return "bad-op"
+				}
+				n, err := strconv.Atoi(tok[1:])
+				if err != nil || n < 0 {
+					return "bad-op"
+				}
+				switch tok[0] {
+				case 'u':
+					sb.WriteString(verifC15UUID(n) + "\n")
+				case 's':
+					sb.WriteString(verifC15UUID(n) + " stale\n")
+				case 'x':
+					sb.WriteString(verifC15UUID(n) + " something else\n")
+				}
+			}
+		}
+		ex.bootOk, ex.listOk = boot, true
+		ex.listOut = sb.String()
+		wp := verifC15NewPool(ex)
+		w := verifC15AddWorker(wp, 1, 1, c.st, c.ib, c.sg, c.rg, c.gu)
+		wp.mtx.Lock()
+		w.wkr.probed = time.Now()
+		switch f[7] {
+		case "y":
+			w.wkr.staleRunLockSince = time.Now()
+		case "o":
+			w.wkr.staleRunLockSince = time.Now().Add(-120 * verifC15Unit)
+		}
+		d0 := w.wkr.destroyed
+		wp.mtx.Unlock()
+		w.wkr.ProbeAndUpdate()
+		wp.mtx.Lock()
+		want := 0
+		if w.wkr.destroyed != d0 {
+			want = 1
+		}
+		var exited []int
+		for k := range wp.exited {
+			exited = append(exited, verifC15UUIDNum(k))
+		}
+		res := fmt.Sprintf("%s%s sg=%s rg=%s ex=%s", verifC15WSr[w.wkr.state], verifC15IBr[w.wkr.idleBehavior],
+			verifC15ShowUs(verifC15Keys(w.wkr.starting)), verifC15ShowUs(verifC15Keys(w.wkr.running)), verifC15ShowUs(exited))
+		sl := !w.wkr.staleRunLockSince.IsZero()
+		wp.mtx.Unlock()
+		return fmt.Sprintf("%s d=%d sl=%s", res, w.destroyCount(want), verifC15B(sl))
+	case f[0] == "tp" && len(f) == 2 && len(f[1]) > 0:
+		// the real Pool.runProbes loop (probeInterval 1 ms) over held Idle workers whose `crunch-run --list`
+		// answers at once (f), slowly (s: several ticks are dropped meanwhile) or fails (x); the loop must keep
+		// going round: every worker is probed again and again
+		wp := verifC15NewPool(ex)
+		wp.probeInterval = time.Millisecond
+		wp.maxProbesPerSecond = 1000
+		var exs []*verifC15Exec
+		for i, ch := range f[1] {
+			e := &verifC15Exec{bootOk: true, listOk: ch != 'x'}
+			switch ch {
+			case 'f', 'x':
+			case 's':
+				e.delay = 3 * time.Millisecond
+			default:
+				return "bad-op"
+			}
+			exs = append(exs, e)
+			wp.newExecutor = func(cloud.Instance) Executor { return e }
+			wp.mtx.Lock()
+			verifC15AddWorker(wp, i+1, 1, StateIdle, IdleBehaviorHold, nil, nil, nil)
+			wp.mtx.Unlock()
+		}
+		go wp.runProbes()
+		deadline := time.Now().Add(20 * time.Second)
+		min := int32(0)
+		for time.Now().Before(deadline) {
+			min = int32(1 << 30)
+			for _, e := range exs {
+				if n := atomic.LoadInt32(&e.nlist); n < min {
+					min = n
+				}
+			}
+			if min >= 3 {
+				break
+			}
+			time.Sleep(200 * time.Microsecond)
+		}
+		close(wp.stop)
+		if min >= 3 {
+			return "rounds>=3"
+		}
+		return fmt.Sprintf("stalled min=%d", min)
 	case f[0] == "sy" && len(f) == 3:
 		wp := verifC15NewPool(ex)
 		now := time.Now()
